@@ -183,11 +183,12 @@ theorem negotiateIkeRequest_tmp_tri (request : Msg) (x : XSa) (su : Option XSa) 
 /-- what `IkeSa(...)` returns, as far as the tape has no say -/
 def FreshSa (conf : Conf) (isInit : Bool) (peerSpi myAddr peerAddr : Bytes) (n : XSa) : Prop :=
   n.core.isInit = isInit ∧ n.core.peerSpi = peerSpi ∧ n.core.myAddr = myAddr ∧ n.core.peerAddr = peerAddr ∧
-  n.ext.kids = [] ∧ n.ext.conf = conf ∧ n.core.cookie = false ∧ n.core.request = none ∧ n.ext.chosen = none
+  n.ext.kids = [] ∧ n.ext.conf = conf ∧ n.core.cookie = false ∧ n.core.request = none ∧ n.ext.chosen = none ∧
+  n.core.st = stINITIAL
 
 theorem newXSa_ret (conf : Conf) (now : Nat) (i : Bool) (p a b : Bytes) : Ret (FreshSa conf i p a b) (newXSa conf now i p a b) := by
   unfold newXSa
-  exact Ret.bind (fun _ => Ret.bind (fun _ => Ret.pure _ ⟨rfl, rfl, rfl, rfl, rfl, rfl, rfl, rfl, rfl⟩))
+  exact Ret.bind (fun _ => Ret.bind (fun _ => Ret.pure _ ⟨rfl, rfl, rfl, rfl, rfl, rfl, rfl, rfl, rfl, rfl⟩))
 
 /-- the object a rekeyed IKE_SA leaves behind, and its successor with the CHILD_SAs -/
 def rekeyedOf (x : XSa) : XSa := { (x.setKids []) with core := { (x.setKids []).core with st := stREKEYED } }
@@ -495,7 +496,7 @@ def RekeyOutcome (a b a' b' : HSt) (na0 : XSa) : Prop :=
       nb.core.myAddr = b.me.core.myAddr ∧ nb.core.peerAddr = b.me.core.peerAddr ∧ nb.ext.conf = b.me.ext.conf) ∨
   (a'.me.core.st = stESTABLISHED ∧ a'.me.ext.kids = a.me.ext.kids ∧ b'.me = b.me ∧ b'.succ = b.succ) ∨
   (a'.me.core.st = stDELETED ∧ b'.me.core.st = stDELETED ∧ a'.me.ext.kids = a.me.ext.kids ∧ b'.me.ext.kids = b.me.ext.kids ∧
-      b'.succ = b.succ)
+      b'.succ = b.succ ∧ a'.succ = some na0)
 
 theorem rConverse (now : Nat) : ∀ (fuel : Nat) (a b : HSt) (r : Msg) (na0 : XSa) (pa : Proposal)
     (_sta : a.me.core.st = stREK_IKE_SA_REQ_SENT) (_su : a.succ = some na0) (_hreq : a.me.core.request = some r)
@@ -578,7 +579,7 @@ theorem rConverse (now : Nat) : ∀ (fuel : Nat) (a b : HSt) (r : Msg) (na0 : XS
                   rw [show delIkeReq (setSt a.me stESTABLISHED) = mkRequest (setSt a.me stESTABLISHED).core 37 [mkP ptDELETE (.delete 1 [])] from rfl,
                     delIkeStep now fuel a2 b1 hst2 hlive] at hconv
                   cases hconv
-                  refine Or.inr (Or.inr ⟨rfl, rfl, ?_, ?_, hb1.2⟩)
+                  refine Or.inr (Or.inr ⟨rfl, rfl, ?_, ?_, hb1.2, h2.2.1⟩)
                   · simp only [setSt]; rw [h2.1]; rfl
                   · simp only [setSt]; rw [hb1.1]
               · exact absurd hp0 (errReply_paySA _ _ herr _)
@@ -588,7 +589,7 @@ theorem rConverse (now : Nat) : ∀ (fuel : Nat) (a b : HSt) (r : Msg) (na0 : XS
 theorem generateRekeyIkeSaRequest_tri (now : Nat) (x : XSa) (su tm : Option XSa) :
     Tri (Objs x su tm) (generateRekeyIkeSaRequest now)
       (fun r s => ∃ na0 pa, Objs { x with core := { x.core with request := some r, st := stREK_IKE_SA_REQ_SENT } } (some na0) tm s ∧
-        na0.core.isInit = true ∧ r.hdr.exch = 36 ∧ paySA r true = .ok [pa] ∧ pa.spi = na0.core.mySpi ∧
+        na0.core.isInit = true ∧ na0.core.st = stINITIAL ∧ r.hdr.exch = 36 ∧ paySA r true = .ok [pa] ∧ pa.spi = na0.core.mySpi ∧
         pa.proto = x.ext.conf.proposal.proto)
       (fun _ _ => True) := by
   unfold generateRekeyIkeSaRequest
@@ -600,7 +601,7 @@ theorem generateRekeyIkeSaRequest_tri (now : Nat) (x : XSa) (su tm : Option XSa)
   · apply Tri.modify; intro s ⟨h1, _, h3⟩; exact ⟨h1, rfl, h3⟩
   · intro _
     -- generateIkeNegotiation on the successor
-    apply Tri.bind (Q := fun payloads s => ∃ na0 pa, Objs x (some na0) tm s ∧ na0.core.isInit = true ∧ pa.spi = na0.core.mySpi ∧
+    apply Tri.bind (Q := fun payloads s => ∃ na0 pa, Objs x (some na0) tm s ∧ na0.core.isInit = true ∧ na0.core.st = stINITIAL ∧ pa.spi = na0.core.mySpi ∧
         pa.proto = x.ext.conf.proposal.proto ∧ ∃ n g pub, payloads = [mkP ptSA (.sa [pa]), mkP ptNONCE (.nonce n), mkP ptKE (.ke g pub)])
     · unfold generateIkeNegotiation
       apply Tri.bind_getSucc
@@ -611,14 +612,14 @@ theorem generateRekeyIkeSaRequest_tri (now : Nat) (x : XSa) (su tm : Option XSa)
       · exact Tri.raise _ (fun _ _ => trivial)
       · rename_i g _
         refine Tri.bind_inv (fun _ => True) (popBytesOrFail_to.keeps _ _ _) (ret_true _) ?_ (fun _ _ _ => trivial); intro pub _
-        refine Tri.pure _ (fun s hs => ⟨_, _, hs, hnew.1, rfl, ?_, nonce, g, pub, rfl⟩)
+        refine Tri.pure _ (fun s hs => ⟨_, _, hs, hnew.1, hnew.2.2.2.2.2.2.2.2.2, rfl, ?_, nonce, g, pub, rfl⟩)
         rw [hnew.2.2.2.2.2.1]
     · intro payloads
       constructor
-      · intro s r t ⟨na0, pa, hs, hi, hspi, hproto, n, g, pub, hpl⟩ hm
+      · intro s r t ⟨na0, pa, hs, hi, hst0, hspi, hproto, n, g, pub, hpl⟩ hm
         simp only [HM.bind_def, modCore, HM.modify, HM.pure_def] at hm
         cases hm
-        refine ⟨na0, pa, ⟨by rw [hs.1], hs.2.1, hs.2.2⟩, hi, rfl, ?_, hspi, hproto⟩
+        refine ⟨na0, pa, ⟨by rw [hs.1], hs.2.1, hs.2.2⟩, hi, hst0, rfl, ?_, hspi, hproto⟩
         rw [hpl]; rfl
       · intro _ _ _ _ _; trivial
 
@@ -638,7 +639,8 @@ def RekeyEnd (a b a' b' : HSt) : Prop :=
       nb.me.core.myAddr = b.me.core.myAddr ∧ nb.me.core.peerAddr = b.me.core.peerAddr ∧ nb.me.ext.conf = b.me.ext.conf ∧
       a'.me.core.st = stDELETED ∧ b'.me.core.st = stDELETED ∧ a'.me.ext.kids = [] ∧ b'.me.ext.kids = []) ∨
   (Agree a' b' ∧ a'.me.ext.kids = a.me.ext.kids ∧ b'.me = b.me) ∨
-  (a'.me.core.st = stDELETED ∧ b'.me.core.st = stDELETED ∧ a'.me.ext.kids = a.me.ext.kids)
+  (a'.me.core.st = stDELETED ∧ b'.me.core.st = stDELETED ∧ a'.me.ext.kids = a.me.ext.kids ∧
+      ∃ n, a'.succ = some n ∧ n.core.st = stINITIAL)
 
 /-- **an IKE_SA rekey between two ends that agree**: if no handler raises and the conversation ends, then either both old objects are
     DELETED without CHILD_SAs and the two successors are ESTABLISHED, hold the CHILD_SAs of their predecessors — so they agree as
@@ -656,12 +658,12 @@ theorem rekeyExchange_outcome (now fuel : Nat) (a b a' b' : HSt) (h : Agree a b)
     | error e => cases hx
     | ok r =>
       dsimp only at hx hspi0
-      obtain ⟨na0, pa, hs, hi, hex, hsa, hspi, hproto⟩ := (generateRekeyIkeSaRequest_tri now a.me a.succ a.tmp).ok a r a1 ⟨rfl, rfl, rfl⟩ hg
+      obtain ⟨na0, pa, hs, hi, hst0, hex, hsa, hspi, hproto⟩ := (generateRekeyIkeSaRequest_tri now a.me a.succ a.tmp).ok a r a1 ⟨rfl, rfl, rfl⟩ hg
       have hne := hspi0 na0 hs.2.1
       have hout := rConverse now fuel a1 b r na0 pa (by rw [hs.1]) hs.2.1 (by rw [hs.1]) hex hsa (by rw [hproto, hconf]) hspi hne
           h.stb a' b' hx
       have ka1 : a1.me.ext.kids = a.me.ext.kids := by rw [hs.1]
-      rcases hout with ⟨na, nb, h1, h2, h3, h4, h5, h6, h7, h8, h9, h10, _, h12, h13, _, h15, h16, h17, h18⟩ | ⟨h1, h2, h3, _⟩ | ⟨h1, h2, h3, _⟩
+      rcases hout with ⟨na, nb, h1, h2, h3, h4, h5, h6, h7, h8, h9, h10, _, h12, h13, _, h15, h16, h17, h18⟩ | ⟨h1, h2, h3, _⟩ | ⟨h1, h2, h3, _, _, h6⟩
       · refine Or.inl ⟨{ a' with me := na, succ := none, tmp := none }, { b' with me := nb, succ := none, tmp := none },
           by simp [promote, h5], by simp [promote, h6], ?_, h12, h13, h15, h16, h17, h18, h1, h2, h3, h4⟩
         rw [ka1] at h9
@@ -671,6 +673,114 @@ theorem rekeyExchange_outcome (now fuel : Nat) (a b a' b' : HSt) (h : Agree a b)
         rw [ka1] at h2
         exact ⟨h1, by rw [h3]; exact h.stb, by rw [h2, h3]; exact h.mirror, by rw [h2]; exact h.nda, by rw [h3]; exact h.ndb,
           by rw [h2]; exact h.protoa, by rw [h3]; exact h.protob, by rw [h2, h3]; exact h.paired⟩
-      · exact Or.inr (Or.inr ⟨h1, h2, by rw [h3, ka1]⟩)
+      · exact Or.inr (Or.inr ⟨h1, h2, by rw [h3, ka1], na0, h6, hst0⟩)
+
+/-! ### a whole session: CHILD_SA exchanges and IKE_SA rekeys in any order, started by either end -/
+
+inductive SessOp where
+  | child (op : ChildOp)
+  | rekeyIke (byA : Bool)
+  deriving Repr
+
+/-- an IKE_SA rekey with `a` as its initiator, and what the pair of ends is afterwards: the promoted successors when the replaced
+    IKE_SA is gone and its successor is ESTABLISHED; the ends as they are when the rekey was refused; nothing (the session is over)
+    when the initiator gave up -/
+def rekeyStepA (now fuel : Nat) (a b : HSt) : Option (HSt × HSt) :=
+  if a.me.ext.conf.proposal.proto ≠ 1 then none
+  else match (generateRekeyIkeSaRequest now a).2.succ with
+    | none => none
+    | some na0 =>
+      if na0.core.mySpi = [] then none        -- (the SPI is eight random octets)
+      else match rekeyExchange now fuel a b with
+        | none => none
+        | some (a', b') =>
+          if a'.me.core.st = stDELETED then
+            match promote a', promote b' with
+            | some na, some nb => if na.me.core.st = stESTABLISHED then some (na, nb) else none
+            | _, _ => none
+          else some (a', b')
+
+def sessStep (now fuel : Nat) (ab : HSt × HSt) : SessOp → Option (HSt × HSt)
+  | .child op => opStep now fuel ab op
+  | .rekeyIke true => rekeyStepA now fuel ab.1 ab.2
+  | .rekeyIke false => (rekeyStepA now fuel ab.2 ab.1).map fun x => (x.2, x.1)
+
+def sessRun (now fuel : Nat) (ab : HSt × HSt) : List SessOp → Option (HSt × HSt)
+  | [] => some ab
+  | op :: rest => match sessStep now fuel ab op with
+    | some ab' => sessRun now fuel ab' rest
+    | none => none
+
+theorem Agree.rekeyStepA {a b a' b' : HSt} (h : Agree a b) (now fuel : Nat) (hx : rekeyStepA now fuel a b = some (a', b')) :
+    Agree a' b' := by
+  unfold PyIkev2.Impl.rekeyStepA at hx
+  split at hx
+  · cases hx
+  · rename_i hconf
+    have hconf : a.me.ext.conf.proposal.proto = 1 := Decidable.not_not.mp hconf
+    cases hs : (generateRekeyIkeSaRequest now a).2.succ with
+    | none => rw [hs] at hx; cases hx
+    | some na0 =>
+      rw [hs] at hx; dsimp only at hx
+      split at hx
+      · cases hx
+      · rename_i hne
+        cases he : rekeyExchange now fuel a b with
+        | none => rw [he] at hx; cases hx
+        | some x =>
+          obtain ⟨a2, b2⟩ := x
+          rw [he] at hx; dsimp only at hx
+          have hend := rekeyExchange_outcome now fuel a b a2 b2 h hconf (by intro n hn; rw [hs] at hn; cases hn; exact hne) he
+          split at hx
+          · rename_i hdel
+            rcases hend with ⟨na, nb, e1, e2, hag, _⟩ | ⟨hag, _, _⟩ | ⟨_, _, _, n, hn, hst⟩
+            · rw [e1, e2] at hx; dsimp only at hx
+              split at hx
+              · cases hx; exact hag
+              · cases hx
+            · rw [hag.sta] at hdel; cases hdel
+            · have : promote a2 = some { a2 with me := n, succ := none, tmp := none } := by simp [promote, hn]
+              rw [this] at hx
+              cases hp : promote b2 with
+              | none => rw [hp] at hx; cases hx
+              | some nb =>
+                rw [hp] at hx; dsimp only at hx
+                rw [if_neg (by rw [hst]; decide)] at hx; cases hx
+          · rename_i hnd
+            cases hx
+            rcases hend with ⟨_, _, _, _, _, _, _, _, _, _, _, hd, _⟩ | ⟨hag, _, _⟩ | ⟨hd, _⟩
+            · exact absurd hd hnd
+            · exact hag
+            · exact absurd hd hnd
+
+/-- **a whole session**: any sequence of CHILD_SA creations, rekeys and deletions and of IKE_SA rekeys, started by either end, one
+    conversation at a time: if it runs to the end, the two ends — after an IKE_SA rekey: the two successors — agree as the ends did
+    at the start -/
+theorem Agree.sessRun (now fuel : Nat) : ∀ (ops : List SessOp) (a b a' b' : HSt), Agree a b →
+    sessRun now fuel (a, b) ops = some (a', b') → Agree a' b'
+  | [], a, b, a', b', h, hx => by simp only [PyIkev2.Impl.sessRun] at hx; cases hx; exact h
+  | op :: rest, a, b, a', b', h, hx => by
+    simp only [PyIkev2.Impl.sessRun] at hx
+    cases hs : sessStep now fuel (a, b) op with
+    | none => rw [hs] at hx; cases hx
+    | some ab1 =>
+      rw [hs] at hx; dsimp only at hx
+      obtain ⟨a1, b1⟩ := ab1
+      have h1 : Agree a1 b1 := by
+        cases op with
+        | child op =>
+          simp only [sessStep] at hs
+          exact Agree.opRun now fuel [op] a b a1 b1 h (by simp only [PyIkev2.Impl.opRun, hs])
+        | rekeyIke byA =>
+          cases byA with
+          | true => simp only [sessStep] at hs; exact h.rekeyStepA now fuel hs
+          | false =>
+            simp only [sessStep] at hs
+            cases hr : PyIkev2.Impl.rekeyStepA now fuel b a with
+            | none => simp only [hr, Option.map_none] at hs; cases hs
+            | some x =>
+              simp only [hr, Option.map_some] at hs; cases hs
+              exact (h.symm.rekeyStepA now fuel (a' := x.1) (b' := x.2) hr).symm
+      exact Agree.sessRun now fuel rest a1 b1 a' b' h1 hx
 
 end PyIkev2.Impl
